@@ -54,6 +54,7 @@ class Gen:
             "effects": True,
             "nocache": True,
             "iter_bare": False,
+            "dataset_classes": True,
         }
         if features:
             self.f.update(features)
@@ -226,6 +227,8 @@ class Gen:
             choices.append(("allopts", 0.25))
         if f["steps"]:
             choices.append(("step", 0.8))
+        if f["dataset_classes"]:
+            choices.append(("dc", 0.7))
         total = sum(w for _, w in choices)
         r = rng.random() * total
         for name, w in choices:
@@ -249,6 +252,16 @@ class Gen:
                 "n": self.nid(),
                 "form": rng.choice(["apply", "rshift"]),
             }
+        if name == "dc":
+            # a dataset class (its instance, unpacked member by member): members may be privately named, and the first
+            # `base` of them inherited from a base class that may be a dataset class itself
+            n = rng.choice([1, 2, 2, 3])
+            members = [[("_m%d" if rng.random() < 0.3 else "m%d") % i, self.expr(max(d - 1, 0))] for i in range(n)]
+            s = {"k": "dc", "members": members, "n": self.nid()}
+            if n > 1 and rng.random() < 0.4:
+                s["base"] = rng.randrange(1, n)
+                s["base_decorated"] = rng.random() < 0.5
+            return s
         if name == "step":
             params = [[f"p{i}", self.expr(max(d - 1, 0))] for i in range(rng.choice([0, 1, 2]))]
             return {"k": "apply", "src": self.expr(d), "fn": {"name": f"s{self.nid()}", "params": params, "n": self.nid()}}
